@@ -132,6 +132,20 @@ META = {
 PENDING = "check not yet built in this round (see DESIGN.md §4 for the rules planned)"
 
 
+# rules added after the seeding / false-alarm / defect-hunt rounds (DESIGN §10): appended to the texts above
+EXTRA = {
+    "C11": " Also: every exit of the string-alias branch is the forward reference in the alias's module; the graph's revisit test consults the annotation and its unwrapped form; refs.forwardref/_resolve_module_name naming rules; helper contracts of refs.evaluate, inspection.args, get_type_hints.",
+    "C12": " Also: closures that outlive their maker never write captured variables; no memoised one-shot objects; memoised renderers only of exact-equality parameters.",
+    "C13": " Also: every named constructor parameter yields a signature hint (guards on parameter kinds evaluated on the IntEnum order); a result rebuilt from attributes of the input reads a set that determines the class (Pattern: pattern+flags).",
+    "C14": " Also: a Literal text member is matched on the decoded text of every carrier before the loader may re-type it; memoryview decoded from its own bytes.",
+    "C16": " Also: the unwrap rules (R11.1) and the forwardref naming rules (R11.7) are shared in, since the lookup keys are built by them.",
+    "C17": " Also: a raw-membership table lists a typing alias together with its runtime origin; qualname()/name() name a class by its own qualified name and cut text only for typing forms; origin() interpreted on the catalogue.",
+    "C19": " Also: nothing reaches __slots__ outside the inherited-slots filter; the pickle-hook guard is checked as a truth table over {user __getstate__, user __setstate__, frozen}.",
+}
+for _k, _v in EXTRA.items():
+    META[_k]["text"] = META[_k]["text"] + _v
+
+
 def main():
     props = [json.loads(l) for l in (HERE / "properties.jsonl").read_text().splitlines() if l.strip()]
     checks, na = [], []
